@@ -81,6 +81,8 @@ def gen_selector(rng, pool, stats_cls=None, kinds=("n", "i", "s", "w"), filt=Non
         return ["w"]
     if k == "f":
         return ["f", filt(rng, pool)]
+    if k == "k":
+        return ["k"]
     raise ValueError(k)
 
 
